@@ -11,7 +11,7 @@
      20 warm pull differs from cold pull   21 pull above the remaining supply / pool cap
      30 cumulative invariant broken (balance < 0 or balance + withdrawn <> matured)
      31 a withdrawal paid more than the matured balance
-     32 a negative WITHDRAW_REWARD amount was not refused                                  *)
+     32 a WITHDRAW_REWARD amount that is negative or outside int64 was not refused                                  *)
 From Coq Require Import ZArith List Bool.
 From OL Require Import theories.Rewards gen.Facts_Consts.
 Import ListNotations.
@@ -37,11 +37,12 @@ Record wtx := mkWtx {
 }.
 
 (* 8 = the model's verdict/records differ from DeliverTx;
-   monitor 32 = a negative amount was accepted by CheckTx or DeliverTx, or changed the records *)
+   monitor 32 = a negative amount or one outside int64 was accepted by CheckTx or DeliverTx, or
+   changed the records *)
 Definition check_wtx (w : wtx) : list Z :=
   let m := withdraw_tx (w_value w) (w_bal w) (w_wd w) (w_pool w) in
   (if Bool.eqb (fst (fst m)) (w_deliver_ok w) && (snd (fst m) =? w_bal2 w) && (snd m =? w_wd2 w) then [] else [8])
-  ++ (if (w_value w <? 0) &&
+  ++ (if negb (withdraw_amount_ok (w_value w)) &&
          negb (negb (w_check_ok w) && negb (w_deliver_ok w) && (w_bal2 w =? w_bal w) && (w_wd2 w =? w_wd w))
       then [32] else []).
 
